@@ -60,6 +60,20 @@ class C04(Prop):
             t = ''.join(c for c in t if c not in '{}"\r' and not (ord(c) < 32 and c != '\n') and c not in '\x7f\x85' and not (0x80 <= ord(c) < 0xa0) and c not in '￾￿')
             if '# Legend:' in t: continue
             out.append(self.make(g, t))
+        # a label inside the bounding boxes of two separate shapes (a long down-right diagonal's box covers everything beside it):
+        # it is still shown once
+        for n in ((5, 9, 13) if tier == 'quick' else range(4, 20)):
+            for gap in (2, 3):
+                rows = [' ' * i + '\\' + ' ' * gap + '\\' for i in range(n)]
+                for lab in ('a', '一b', 'cd'):
+                    r = list(rows); k = rng.randint(1, n - 2)
+                    r[k] = ' ' * k + '\\' + (' ' + lab).ljust(gap)[:gap] + '\\' if len(lab) < gap else r[k] + ' ' + lab
+                    out.append(self.make('between-diagonals', '\n'.join(r)))
+            rows = [' ' * i + '\\' for i in range(n)]
+            box = ['+----+', '| ab |', '+----+']
+            for j, b in enumerate(box):
+                if 1 + j < n: rows[1 + j] = rows[1 + j].ljust(n + 2) + b
+            out.append(self.make('box-beside-diagonal', '\n'.join(rows)))
         return out
     def item_from_json(self, j): return item_from_json(None, j)
     def oracle(self, it):
